@@ -39,8 +39,8 @@ func B(b bool) string {
 	}
 	return "b0"
 }
-func S(b []byte) string   { return "s" + hex.EncodeToString(b) }
-func SS(s string) string  { return "s" + hex.EncodeToString([]byte(s)) }
+func S(b []byte) string  { return "s" + hex.EncodeToString(b) }
+func SS(s string) string { return "s" + hex.EncodeToString([]byte(s)) }
 func F(f float64) string {
 	if f != f {
 		return "fnan"
@@ -113,9 +113,9 @@ func EncErr(err error) string {
 	return "!sql:other:" + strings.ReplaceAll(msg, " ", "_")
 }
 
-func ok(val string) Res             { return Res{Val: val} }
-func mk(val string, err error) Res  { return Res{Val: val, Err: EncErr(err)} }
-func errOnly(err error) Res         { return Res{Val: None, Err: EncErr(err)} }
+func ok(val string) Res            { return Res{Val: val} }
+func mk(val string, err error) Res { return Res{Val: val, Err: EncErr(err)} }
+func errOnly(err error) Res        { return Res{Val: None, Err: EncErr(err)} }
 func valOrErr(val string, err error) Res {
 	if err != nil {
 		return errOnly(err)
@@ -149,10 +149,10 @@ type Value struct {
 	Tok string
 }
 
-func VStr(s string) Value    { return Value{s, "vs" + hex.EncodeToString([]byte(s))} }
-func VBytes(b []byte) Value  { return Value{b, "vb" + hex.EncodeToString(b)} }
-func VNil() Value            { return Value{[]byte(nil), "vn"} }
-func VInt(n int) Value       { return Value{n, "vi" + strconv.Itoa(n)} }
+func VStr(s string) Value   { return Value{s, "vs" + hex.EncodeToString([]byte(s))} }
+func VBytes(b []byte) Value { return Value{b, "vb" + hex.EncodeToString(b)} }
+func VNil() Value           { return Value{[]byte(nil), "vn"} }
+func VInt(n int) Value      { return Value{n, "vi" + strconv.Itoa(n)} }
 func VBool(b bool) Value {
 	if b {
 		return Value{b, "vB1"}
